@@ -519,11 +519,14 @@ def model_opaq_print(cx, views, ri):
         v = unhex(view)
         nattr += v.count(b"\nA ")
         numbered = 1 if re.search(rb"xmlns:[a-z]+[0-9]+=", px) else 0
-        if r[0] != "ok" or len(r) < 5:
+        if r[0] != "ok" or len(r) < 7:
             cx.count(("opaqview", view), True, "rtx:opaq-model:%s" % " ".join(r[:2]))
             cx.disagree("rtx-opaq-model", reqs[k][:6000], ["ok", hexs(px)[:3000]], r[:3])
             continue
-        hyp, why, same, read = r[1], r[2], r[3], r[4]
+        hyp, why, same, read, loose, undecl = r[1:7]
+        if hyp != "1" and loose == "1" and undecl == "1":
+            hyp = "1"           # the source has the repair of F300: opaque_document_faithful_any_namespace applies
+            why = "-"
         cx.count(("opaqview", view), True, "rtx:opaq-model:print=%s:numbered=%d" % ("same" if same == "1" else "DIFFERENT", numbered))
         cx.count(None, False, "rtx:opaq-theorem:opaqOk=%s%s:reader on libyang's bytes %s" % (
             hyp, "" if why == "-" else "(" + why + ")", {"1": "= oviewList", "0": "DIFFERENT", "x": "NOT WELL-FORMED"}.get(read, read)))
@@ -535,8 +538,8 @@ def model_opaq_print(cx, views, ri):
                 nread += 1
             elif same == "1":
                 # the model prints what libyang prints, the hypothesis holds, the conclusion does not: the theorem would be wrong
-                cx.disagree("rtx-opaq-theorem", reqs[k][:6000], ["ok", "reader(libyang) = oviewList"], r[:5])
-        elif why == "no-namespace-under-default" and same == "1" and read == "0" and b'xmlns=""' in d and b'xmlns=""' not in px:
+                cx.disagree("rtx-opaq-theorem", reqs[k][:6000], ["ok", "reader(libyang) = oviewList"], r[:7])
+        elif why == "no-namespace-under-default" and loose == "1" and same == "1" and read == "0" and b'xmlns=""' in d and b'xmlns=""' not in px:
             cx.fail("rtx", "an opaque element in no namespace below a default namespace is printed without xmlns=\"\": it is read in the namespace of its ancestor",
                     {"xml": d.decode("utf-8", "replace"), "xml_out": px.decode("utf-8", "replace")[:3000], "triage": "F300"})
     if again:
@@ -548,7 +551,7 @@ def model_opaq_print(cx, views, ri):
     cx.rule("opaq-model: %d views of opaque forests (%d attribute lines) printed by the Lean model of xml_print_ns/xml_print_attr/"
             "xml_print_opaq = libyang's shrunk XML, byte for byte; %d more views are outside the model's fragment (data nodes, JSON-format "
             "opaque nodes) and only counted" % (len(meta) - nout, nattr, nout))
-    cx.rule("opaq-theorem: the hypothesis opaqOk of opaque_document_faithful (the Lean definition, run by the driver) holds of %d of the "
+    cx.rule("opaq-theorem: the hypothesis opaqOk of opaque_document_faithful (opaqOkAnyNs where the source has the repair of F300; the Lean definitions, run by the driver) holds of %d of the "
             "%d views; for %d of these the independent reader XmlDoc.parseDoc applied to libyang's own bytes reports exactly oviewList "
             "of the view (the conclusion of the theorem, on the real output)" % (nhyp, len(meta) - nout, nread))
 
